@@ -42,7 +42,7 @@ def step (w : World) (line : String) : World × String :=
       if lv then (if opened > 0 then { old with stream := some (w0.nextStream, false) } else old)
       else { old with stream := none }
     let w1 := setSender { w0 with nextStream := w0.nextStream + opened, opened := w0.opened + opened } p s1
-    (w1, s!"res=canceled opened={opened} live={if lv then 1 else 0}")
+    (w1, s!"res=canceled-or-own opened={opened} live={if lv then 1 else 0}")
   | some "msg" =>
     let (w1, r) := call w p (kv "id").toNat! false false
     (w1, s!"res={showRes r} opened={w1.opened - w.opened} live={if live w1 p then 1 else 0}")
